@@ -272,7 +272,7 @@ pub fn check(ctx: &Ctx) -> Check {
         Box::new(RandomPart {
             name: "embedded",
             rule: "random call sets with genotypes of every class (complete, missing, multiallelic, non-diploid anywhere) embedded among ordinary records, all four containers: either the run fails naming the first record with a non-diploid genotype in a selected sample, or the spectrum equals the reference model; non-trivial = >=3 genotype classes among selected samples (or an error after the first record)",
-            cases: ctx.tier.pick(1500, 15_000),
+            cases: ctx.tier.pick(1500, 50_000),
             strategy: Box::new(|| embedded_strategy().boxed()),
             eval: Box::new(eval_embedded),
         }),
